@@ -16,7 +16,7 @@ def setup(verif, codegen, sh, env, logs):
     """Offline pre-build of the harness workspaces (slot 0 of each)."""
     os.makedirs(logs, exist_ok=True)
     bad = 0
-    for crate, guard, flags in (("kani", True, ""), ("kani17", False, "-Z c-ffi --c-lib /repo/src/low_level/extract.c")):
+    for crate, guard, flags in (("kani", True, ""), ("kani17", False, "-Z unstable-options -Z c-ffi --c-lib /repo/src/low_level/extract.c")):
         log = os.path.join(logs, "setup.%s.log" % crate)
         cmd = "cargo kani -Z stubbing %s --target-dir %s/.target/%s-0 --only-codegen" % (flags, verif, crate)
         rc, to = sh(cmd, log, 1800, os.path.join(verif, crate), guard)
